@@ -158,6 +158,10 @@ func (s *Store) discoveryDoc(p *parsedPath) ([]byte, *StatusErr) {
 			if r.Status {
 				rl = append(rl, Object{"name": r.Plural + "/status", "singularName": "", "namespaced": r.Namespaced, "kind": r.Kind, "verbs": []interface{}{"get", "patch", "update"}})
 			}
+			if r.Scale {
+				// a second subresource, as a CRD with subresources.scale has (listed only; nobody uses it)
+				rl = append(rl, Object{"name": r.Plural + "/scale", "singularName": "", "namespaced": r.Namespaced, "kind": "Scale", "group": "autoscaling", "version": "v1", "verbs": []interface{}{"get", "patch", "update"}})
+			}
 		}
 		if len(rl) == 0 {
 			return nil, &StatusErr{Code: 404, Reason: "NotFound", Message: "the server could not find the requested resource"}
